@@ -24,6 +24,7 @@ type pkg struct {
 	assignedInit map[string]bool          // .. that init() may change
 	assignedPkg  map[string]bool          // imported packages (base name) whose objects some function may change
 	imp          map[string]string
+	module       string // module path (go.mod)
 }
 
 func (p *pkg) pos(n ast.Node) string { return p.fset.Position(n.Pos()).String() }
@@ -53,6 +54,16 @@ func loadPkg(repo, name string) *pkg {
 		named: map[string]*typ{}, errVars: map[string]bool{}, assigned: map[string]bool{},
 		assignedInit: map[string]bool{}, assignedPkg: map[string]bool{}}
 	dir := filepath.Join(repo, name)
+	if gm, err := os.ReadFile(filepath.Join(repo, "go.mod")); err == nil {
+		for _, l := range strings.Split(string(gm), "\n") {
+			if f := strings.Fields(l); len(f) == 2 && f[0] == "module" {
+				p.module = f[1]
+			}
+		}
+	}
+	if p.module == "" {
+		fatalf("no module path in %s/go.mod", repo)
+	}
 	ents, err := os.ReadDir(dir)
 	if err != nil {
 		fatalf("%v", err)
@@ -60,7 +71,7 @@ func loadPkg(repo, name string) *pkg {
 	// the files the Go compiler takes for linux/amd64 without custom tags: a file excluded by a
 	// build constraint must not supply (or hide) declarations
 	ctx := build.Default
-	ctx.GOOS, ctx.GOARCH, ctx.BuildTags, ctx.CgoEnabled = "linux", "amd64", nil, false
+	ctx.GOOS, ctx.GOARCH, ctx.BuildTags, ctx.CgoEnabled = "linux", "amd64", nil, true
 	var names []string
 	for _, e := range ents {
 		n := e.Name()
@@ -103,6 +114,7 @@ func loadPkg(repo, name string) *pkg {
 		}
 	}
 	p.checkPredeclared()
+	p.imports() // (checks the import paths)
 	for _, f := range p.files {
 		for _, d := range f.Decls {
 			switch d := d.(type) {
